@@ -2,7 +2,7 @@ package store
 
 // C22 driver: histories mixing writes, loads of generated WAL-/DELETE-mode databases, SQL-text loads, loads of
 // invalid data (empty, truncated, header only, header + garbage, intact first pages + garbage, not SQLite), boots, snapshots and restarts of
-// any node and nodes that join later, on an in-process cluster of one voter and up to two read-only nodes.
+// any node (also with failing persist outcomes, a checkpoint blocked by a reader, log compaction, unclean stops) and nodes that join later, on an in-process cluster of one voter and up to two read-only nodes.
 // After every step every node's database, FULL_NEEDED flag and snapshot catalog are observed.  The Coq model
 // (Model/C22.v) runs the same history; the oracle (property text) is written below in Go.
 
@@ -21,13 +21,16 @@ import (
 )
 
 type c22Op struct {
-	Kind string `json:"kind"`           // write | load | loadsql | loadbad | boot | snap | restart | join
-	Keys []int  `json:"keys,omitempty"` // write
-	Val  int    `json:"val,omitempty"`  // write
-	Data []int  `json:"data,omitempty"` // load / loadsql / boot
-	Wal  bool   `json:"wal,omitempty"`  // load / boot: journal mode of the generated file
-	Bad  string `json:"bad,omitempty"`  // loadbad: empty | truncated | header | garbage | pagegarbage | nonsqlite
-	Node int    `json:"node,omitempty"` // snap / restart
+	Kind    string `json:"kind"`              // write | load | loadsql | loadbad | boot | snap | restart | join
+	Keys    []int  `json:"keys,omitempty"`    // write
+	Val     int    `json:"val,omitempty"`     // write
+	Data    []int  `json:"data,omitempty"`    // load / loadsql / boot
+	Wal     bool   `json:"wal,omitempty"`     // load / boot: journal mode of the generated file
+	Bad     string `json:"bad,omitempty"`     // loadbad: empty | truncated | header | garbage | pagegarbage | nonsqlite
+	Node    int    `json:"node,omitempty"`    // snap / restart
+	Out     string `json:"out,omitempty"`     // snap: "" (ok) | notinvoked | failbefore | blocked (checkpoint blocked by a reader)
+	Compact bool   `json:"compact,omitempty"` // snap of node 0: raft keeps one trailing log entry (later joiners need a snapshot install)
+	Force   bool   `json:"force,omitempty"`   // restart: unclean stop, the database is rebuilt from the snapshot store
 }
 
 type c22Input struct {
@@ -210,15 +213,53 @@ func (r *c22Run) step(op c22Op, rng *rand.Rand) (int, string, error) {
 		if op.Node >= len(r.nodes) {
 			return 6, "", nil
 		}
-		err := r.nodes[op.Node].s.Snapshot(0)
-		if err != nil {
-			if err == ErrNoWALToSnapshot || err == ErrNothingNewToSnapshot || strings.Contains(err.Error(), ErrNoWALToSnapshot.Error()) {
+		s := r.nodes[op.Node].s
+		noWAL := func(err error) bool {
+			return err == ErrNoWALToSnapshot || err == ErrNothingNewToSnapshot || strings.Contains(err.Error(), ErrNoWALToSnapshot.Error())
+		}
+		switch op.Out {
+		case "", "ok":
+			trailing := uint64(0)
+			if op.Compact && op.Node == 0 {
+				trailing = 1
+			}
+			if err := s.Snapshot(trailing); err != nil {
+				if noWAL(err) {
+					return 1, "", nil
+				}
+				if strings.Contains(err.Error(), "wait until the configuration entry") {
+					return 9, "", nil // raft skipped the persist (membership change in flight): retried by nobody, not a case
+				}
+				return 0, "", err
+			}
+		case "blocked":
+			release, err := vsStallReader(s)
+			if err != nil {
+				return 0, "", err
+			}
+			err = s.Snapshot(0)
+			release()
+			switch {
+			case err == nil:
+				return 9, "", nil // the reader did not block the checkpoint
+			case noWAL(err):
 				return 1, "", nil
 			}
-			if strings.Contains(err.Error(), "wait until the configuration entry") {
-				return 9, "", nil // raft skipped the persist (membership change in flight): not a case of this model (C04 covers it)
+			return 7, "", nil
+		default: // notinvoked, failbefore: as raft does while a membership change is pending / when the sink fails
+			f, err := NewFSM(s).Snapshot()
+			if err != nil {
+				if noWAL(err) {
+					return 1, "", nil
+				}
+				return 0, "", err
 			}
-			return 0, "", err
+			if op.Out == "failbefore" {
+				if f.Persist(&c04failSink{}) == nil {
+					return 0, "", fmt.Errorf("persist to a failing sink succeeded")
+				}
+			}
+			f.Release()
 		}
 	case "restart":
 		if op.Node >= len(r.nodes) {
@@ -226,12 +267,17 @@ func (r *c22Run) step(op c22Op, rng *rand.Rand) (int, string, error) {
 		}
 		n := r.nodes[op.Node]
 		if op.Node == 0 {
-			if err := n.restart(); err != nil {
+			if err := n.restartForce(op.Force); err != nil {
 				return 0, "", err
 			}
 		} else {
 			if err := n.s.Close(true); err != nil {
 				return 0, "", err
+			}
+			if op.Force {
+				if err := n.s.ForceSnapshotRestore(); err != nil {
+					return 0, "", err
+				}
 			}
 			n.ln.Close()
 			if err := r.join(op.Node); err != nil { // same directory and id, new listener: re-join with the new address
@@ -283,7 +329,8 @@ func c22CoqOp(op c22Op) string {
 	case "boot":
 		return "(CBoot " + vsCoqNList(op.Data) + ")"
 	case "snap":
-		return fmt.Sprintf("(CSnap %d%%nat)", op.Node)
+		out := map[string]string{"": "POk", "ok": "POk", "notinvoked": "PNotInvoked", "failbefore": "PFailBefore", "blocked": "PBlocked"}[op.Out]
+		return fmt.Sprintf("(CSnap %d%%nat %s %s)", op.Node, out, coqBool(op.Compact && op.Node == 0))
 	case "restart":
 		return fmt.Sprintf("(CRestart %d%%nat)", op.Node)
 	}
@@ -328,20 +375,23 @@ func c22RunCase(in c22Input, base string, seq int) VCase {
 			return VCase{Input: in, Key: key, OracleFail: fmt.Sprintf("step %d (%s) failed: %v", i, op.Kind, err), Sig: "C22:step-error:" + op.Kind}
 		}
 		if res == 9 {
-			return VCase{Input: in, Key: key, Inconcl: fmt.Sprintf("step %d (%s): raft skipped the persist because a membership change was in flight", i, op.Kind)}
+			return VCase{Input: in, Key: key, Inconcl: fmt.Sprintf("step %d (%s%s): raft skipped the persist because a membership change was in flight, or the reader did not block", i, op.Kind, op.Out)}
 		}
 		if err := r.settle(); err != nil {
 			return VCase{Input: in, Key: key, Inconcl: fmt.Sprintf("step %d (%s): %v", i, op.Kind, err)}
 		}
 		obs := r.observe()
-		tags[op.Kind+op.Bad] = true
+		tags[op.Kind+op.Bad+op.Out] = true
+		if op.Force {
+			tags["restart-from-snapshot-store"] = true
+		}
 		tags[fmt.Sprintf("nodes=%d", len(r.nodes))] = true
 		switch {
 		case op.Kind == "load" || op.Kind == "boot" || op.Kind == "loadsql":
 			if res == 0 {
 				loaded, snapAfter = true, false
 			}
-		case op.Kind == "snap" && res == 0 && loaded:
+		case op.Kind == "snap" && res == 0 && loaded && (op.Out == "" || op.Out == "ok"):
 			snapAfter = true
 		case (op.Kind == "restart" || op.Kind == "join") && res == 0 && loaded && snapAfter:
 			nontrivial = true
@@ -393,6 +443,7 @@ func c22Gen(rng *rand.Rand, maxOps int) c22Input {
 	val := 1
 	nodes := 1
 	cur := make([]int, vsKeys)
+	fullDue, wroteSince := false, false // (leader) a load made a full snapshot due / a write followed it
 	first := c04RandKeys(rng)
 	for _, k := range first {
 		cur[k-1] = 1
@@ -407,10 +458,12 @@ func c22Gen(rng *rand.Rand, maxOps int) c22Input {
 			for _, k := range ks {
 				cur[k-1] = val
 			}
+			wroteSince = true
 			ops = append(ops, c22Op{Kind: "write", Keys: ks, Val: val})
 		case x < 8:
 			val += 10
 			copy(cur, c04RandCells(rng, val))
+			fullDue, wroteSince = true, false
 			ops = append(ops, c22Op{Kind: "load", Data: append([]int{}, cur...), Wal: rng.Intn(2) == 0})
 		case x < 10:
 			val += 10
@@ -424,17 +477,36 @@ func c22Gen(rng *rand.Rand, maxOps int) c22Input {
 				d := c04RandCells(rng, val)
 				if nodes == 1 {
 					copy(cur, d)
+					fullDue = false
 				}
 				ops = append(ops, c22Op{Kind: "boot", Data: d, Wal: rng.Intn(2) == 0})
 			}
 		case x < 17:
-			ops = append(ops, c22Op{Kind: "snap", Node: rng.Intn(nodes)})
+			nd := rng.Intn(nodes)
+			op := c22Op{Kind: "snap", Node: nd}
+			switch y := rng.Intn(10); {
+			case y < 2:
+				op.Out = "notinvoked"
+			case y < 3:
+				op.Out = "failbefore"
+			case y < 5 && nd == 0 && fullDue && wroteSince:
+				op.Out = "blocked" // only while a load has made a full snapshot due and a write followed (the reader then blocks for sure)
+			default:
+				op.Compact = nd == 0 && rng.Intn(3) == 0
+				if nd == 0 {
+					fullDue = false
+				}
+			}
+			if nd == 0 && op.Out != "blocked" {
+				wroteSince = false // every other attempt checkpoints the WAL: a reader then has nothing to block
+			}
+			ops = append(ops, op)
 		case x < 20:
 			nd := rng.Intn(nodes)
 			if nd == 0 && nodes > 1 {
 				nd = 1 // the voter is only restarted while it is alone
 			}
-			ops = append(ops, c22Op{Kind: "restart", Node: nd})
+			ops = append(ops, c22Op{Kind: "restart", Node: nd, Force: rng.Intn(2) == 0})
 		default:
 			if nodes < 3 {
 				nodes++
@@ -480,6 +552,15 @@ func c22Corpus() []c22Input {
 		c22Input{Ops: []c22Op{W(1, 6, 1), S(0), {Kind: "boot", Data: all(3), Wal: false}, W(2, 3, 4), S(0), R(0), J, W(7, 9, 5), S(1), R(1), {Kind: "boot", Data: all(9)}, J}},
 		// boot right after a restart of a node that already has snapshots (nothing but the boot itself says "full")
 		c22Input{Ops: []c22Op{W(1, 6, 1), S(0), R(0), {Kind: "boot", Data: all(3), Wal: true}, W(2, 3, 4), S(0), R(0), J, {Kind: "loadbad", Bad: "pagegarbage"}, S(1)}},
+		// a load, then snapshot attempts that fail after fsmSnapshot refreshed its in-memory "file modified" time
+		// (blocked checkpoint, persist not invoked), then a successful snapshot that compacts the log; the database
+		// is then rebuilt from the snapshot store: unclean restart of the leader, late joiner by install
+		c22Input{Ops: []c22Op{W(1, 12, 1), S(0), {Kind: "load", Data: all(3), Wal: true}, W(2, 3, 4), {Kind: "snap", Out: "blocked"}, W(4, 4, 5),
+			{Kind: "snap", Compact: true}, {Kind: "restart", Force: true}, J, W(5, 5, 6), S(1), {Kind: "restart", Node: 1, Force: true}}},
+		c22Input{Ops: []c22Op{W(1, 12, 1), S(0), J, {Kind: "load", Data: all(3), Wal: false}, W(2, 3, 4), {Kind: "snap", Out: "notinvoked"}, {Kind: "snap", Node: 1, Out: "notinvoked"},
+			W(4, 4, 5), {Kind: "snap", Compact: true}, S(1), {Kind: "restart", Node: 1, Force: true}, J}},
+		c22Input{Ops: []c22Op{W(1, 12, 1), S(0), {Kind: "load", Data: all(3), Wal: true}, W(2, 3, 4), {Kind: "snap", Out: "blocked"}, {Kind: "snap", Out: "failbefore"}, {Kind: "snap", Out: "notinvoked"},
+			W(4, 4, 5), S(0), {Kind: "restart", Force: true}, {Kind: "snap", Compact: true}, J}},
 		// SQL-text load and DELETE-mode file load
 		c22Input{Ops: []c22Op{W(1, 6, 1), S(0), {Kind: "loadsql", Data: all(2)}, S(0), J, {Kind: "load", Data: all(5), Wal: false}, S(0), S(1), R(1), W(1, 2, 6), R(0)}},
 	)
